@@ -96,8 +96,12 @@ def main():
     for name, res in results.items():
         ob = by[name]
         if ob.canary:
-            if res.verdict != fw.REFUTED:
+            # a canary is a deliberately false claim: the engine is unusable if it ACCEPTS it; an inconclusive canary (the traced
+            # code left the modelled subset) is reported but is not an engine failure
+            if res.verdict in (fw.DISCHARGED, fw.BOUNDED_OK, fw.ERROR):
                 canary_bad.append(name)
+            elif res.verdict != fw.REFUTED:
+                print(f"NOTE canary {name} inconclusive on this tree: {res.detail[:120]}")
             continue
         if res.verdict == fw.DISCHARGED:
             (bounded_ok if ob.bounded else discharged).append(name)
